@@ -1,5 +1,40 @@
 // Package c12 decides the structural clauses of property C12 (value and RDB
 // file serialisation round-trips through the parser).
+//
+// How the rules are stated (round 3): no rule matches a statement shape of the
+// repository any more. Every rule is one of
+//
+//   - a LANGUAGE comparison: the wire term of a function (package grammar, same
+//     package helpers inlined with their parameters bound, a parameter such as
+//     the value type given each value in turn with Assume, a decoder that
+//     dispatches on its first byte split with ByFirstByte) is expanded to the
+//     set of token sequences of its successful paths (grammar.Language) and
+//     compared with the set the format prescribes - if/else, guard clauses,
+//     tagless switches, which arm comes first, where the calls live do not
+//     matter;
+//   - a ROLE comparison (roles.go): what a written value / an event argument /
+//     a stored field IS, followed through locals, parameters, helper results,
+//     named results, result structs, out-parameters, loop variables, linear
+//     arithmetic and byte assembly to a canonical name in the vocabulary of the
+//     anchored function (`elem(o).Field`, `len(o)`, `#2` = second item read,
+//     `lin(1000*encoding/binary.LittleEndian.Uint32(d.intBuf))`), embedded in
+//     the term by grammar's ClassifyCtx so that order, loops and paths come from
+//     the term and values from flow;
+//   - a FEASIBILITY query (encodeObjectRules): "X is written iff condition"
+//     as path queries under assumed atoms, conditions looked through boolean
+//     locals and predicate helpers (truthAt).
+//
+// Verdict policy: a role or term that cannot be resolved (`?...`), a form that
+// is not among the modelled ones, additional paths under conditions the term
+// does not carry => UNDECIDED. VIOLATION only for a construct that was located
+// and is wrong (wrong constant, wrong order, wrong field, wrong count) or that
+// is absent from the whole region including helpers. Every rule emits the same
+// obligation keys whatever the outcome, so that the two views of the tree (as
+// written / new helpers expanded) can be paired by the driver.
+//
+// Known limit: values carried through array elements inside an unrolled loop
+// (`pair[j] = entry` ... `Hset(key, pair[0], pair[1])`) and closures on the
+// tree as written are UNDECIDED (the expanded view discharges closures).
 package c12
 
 import (
@@ -576,6 +611,18 @@ func encodeObjectRules(c *core.Ctx, fn *core.Fn) {
 func linkedEncoder(c *core.Ctx) {
 	mod := c.Pkg(cupMod)
 	info := mod.TypesInfo
+	// The linked encoder lives in the module cache (pinned by go.sum), no edit of
+	// the tree can change it. Its source is matched by shape: the shape found
+	// discharges the obligation, a shape that is not found (another module
+	// version, say) is not recognised - UNDECIDED, not a violation. The opcode and
+	// type numbers it uses are checked by value under R1.ids.
+	shape := func(key string, pos token.Pos, found bool, why string) {
+		if found {
+			c.Okf("R2.grammar", key, pos, "%s", why)
+		} else {
+			c.Undecidedf("R2.grammar", key, pos, "the linked encoder is not written in the recognised form: %s", why)
+		}
+	}
 	get := func(name string) *core.Fn {
 		f := c.LookupFunc(cupMod, "Encoder", name)
 		if f == nil || f.Decl == nil {
@@ -586,22 +633,22 @@ func linkedEncoder(c *core.Ctx) {
 	}
 	if f := get("EncodeHeader"); f != nil {
 		n, _ := pat.Expr(`fmt.Fprintf(_e.w, "REDIS%04d", Version)`).Find(info, f.Decl.Body, nil)
-		c.Check("R2.grammar", "linked-encoder/header", f.Decl.Pos(), n != nil, "the header is REDIS followed by the 4-digit version (9 bytes, what Loader.Header and checkHeader read)")
+		shape("linked-encoder/header", f.Decl.Pos(), n != nil, "the header is REDIS followed by the 4-digit version (9 bytes, what Loader.Header and checkHeader read)")
 	}
 	if f := get("EncodeFooter"); f != nil {
 		n1, _ := pat.Expr("_e.w.Write([]byte{rdbFlagEOF})").Find(info, f.Decl.Body, nil)
 		n2, _ := pat.Expr("_e.w.Write(_e.crc.Sum(nil))").Find(info, f.Decl.Body, nil)
-		c.Check("R2.grammar", "linked-encoder/footer", f.Decl.Pos(), n1 != nil && n2 != nil && n1.Pos() < n2.Pos(), "the footer is the EOF opcode followed by the 8 digest bytes")
+		shape("linked-encoder/footer", f.Decl.Pos(), n1 != nil && n2 != nil && n1.Pos() < n2.Pos(), "the footer is the EOF opcode followed by the 8 digest bytes")
 	}
 	if f := get("EncodeDumpFooter"); f != nil {
 		n1, _ := pat.Expr("binary.Write(_e.w, binary.LittleEndian, uint16(Version))").Find(info, f.Decl.Body, nil)
 		n2, _ := pat.Expr("_e.w.Write(_e.crc.Sum(nil))").Find(info, f.Decl.Body, nil)
-		c.Check("R2.grammar", "linked-encoder/dump-footer", f.Decl.Pos(), n1 != nil && n2 != nil && n1.Pos() < n2.Pos(), "the DUMP footer is version LE16 then the digest")
+		shape("linked-encoder/dump-footer", f.Decl.Pos(), n1 != nil && n2 != nil && n1.Pos() < n2.Pos(), "the DUMP footer is version LE16 then the digest")
 	}
 	if f := get("EncodeDatabase"); f != nil {
 		n1, _ := pat.Expr("_e.w.Write([]byte{rdbFlagSelectDB})").Find(info, f.Decl.Body, nil)
 		n2, _ := pat.Expr("_e.EncodeLength(uint32(_n))").Find(info, f.Decl.Body, nil)
-		c.Check("R2.grammar", "linked-encoder/select-db", f.Decl.Pos(), n1 != nil && n2 != nil && n1.Pos() < n2.Pos(), "SELECTDB is the opcode followed by a length-encoded database number")
+		shape("linked-encoder/select-db", f.Decl.Pos(), n1 != nil && n2 != nil && n1.Pos() < n2.Pos(), "SELECTDB is the opcode followed by a length-encoded database number")
 	}
 	if f := get("EncodeExpiry"); f != nil {
 		n1, b := pat.Stmt("_b = make([]byte, 9)").Find(info, f.Decl.Body, nil)
@@ -612,7 +659,7 @@ func linkedEncoder(c *core.Ctx) {
 			n4, _ := pat.Expr("_e.w.Write(_b)").Find(info, f.Decl.Body, b)
 			ok = n2 != nil && n3 != nil && n4 != nil
 		}
-		c.Check("R2.grammar", "linked-encoder/expiry", f.Decl.Pos(), ok, "the expiry is the EXPIRETIME_MS opcode followed by 8 little-endian bytes")
+		shape("linked-encoder/expiry", f.Decl.Pos(), ok, "the expiry is the EXPIRETIME_MS opcode followed by 8 little-endian bytes")
 	}
 	if v, pos, ok := constVal(c, cupMod, "Version"); ok {
 		pk := c.Pkg(rdbPkg)
